@@ -121,12 +121,13 @@ def run(run):
     run.trusted = [
         "Coq 8.16.1 kernel; the roundtrip/inertness theorems are proved for the _nowiki_map regenerated from common.py each run",
         "axioms: none",
-        "translator translate/data.py (reads the live module)",
+        "translators translate/data.py (reads the live module) and translate/preproc.py (the pattern and replacement function of "
+        "preprocess_text by Python ast; any other statement is refused: fail-closed)",
         "model coq/Model/Preprocess.v tied to core.py:preprocess_text by comparing its item list on generated tag soups; _encode and "
         "the tokenizer are glue exercised by the oracle (expand and parse on every case), not modelled",
         "html.unescape as the decoder on the implementation side; Model.Nowiki.unescape as the decoder in the theorem",
     ]
-    errs = regen.regen(["GenData"])
+    errs = regen.regen(["GenData", "GenPre"])
     for k, v in errs.items():
         run.correspondence_break("translator %s failed" % k, None, error=v)
     run.prove()
